@@ -98,9 +98,9 @@ def parse_tlc(out):
     m = re.search(r"Invariant (\w+) is violated", out)
     if m:
         r["violated"] = m.group(1)
-    m = re.search(r"Action property (\w+) is violated|Temporal properties were violated|property (\w+) is violated", out)
+    m = re.search(r"Action property (\w+) is violated|Temporal properties were violated|property (\w+) is violated|Temporal property (\w+) was violated", out)
     if m and not r["violated"]:
-        r["violated"] = m.group(1) or m.group(2) or "temporal"
+        r["violated"] = m.group(1) or m.group(2) or m.group(3) or "temporal"
     m = re.search(r'"TRACE_REJECTED_AT", (\d+), (.*)>>', out)
     if m:
         r["rejected_at"] = int(m.group(1))
